@@ -281,6 +281,37 @@ def run(ctx):
            'no filter / dedup / truncation is applied to request items in %d function(s) between the history and the request body' % nsc if not drops else
            '%s is applied to request items (line %s): an item of the history (an earlier call, its answer) can be DROPPED from the follow-up request — the provider no longer sees every call answered exactly once' % (drops[0][1].name, drops[0][1].line),
            line=drops[0][1].line if drops else f.line)
+    # ---------------------------------------------------------------- C16.8
+    ctx.rule('C16.8', 'the calls of a response are run and answered once each, in the provider\'s order: between the collector and the per-call loop the sequence of FunctionCallItem is only ordered by output_index (the one sort in drain_function_calls) — nothing filters, de-duplicates, partitions, reverses, truncates or re-sorts it. A dropped call is never answered; a reordered one is answered out of the order the provider emitted (and, under a barred tool, ahead of calls that precede it).')
+    REORDER = (r'alloc::vec::Vec::<T, A>::(retain|retain_mut|dedup|dedup_by|dedup_by_key|remove|swap_remove|truncate|pop|split_off|insert)$'
+               r'|Iterator::(filter|filter_map|skip|take|step_by|skip_while|take_while|map_while|partition|rev|partition_in_place)$'
+               r'|alloc::slice::<impl \[T\]>::(sort\w*|reverse|swap|rotate_\w+|select_nth\w*)$|itertools.*::(unique\w*|dedup\w*|sorted\w*)$')
+    n8 = 0
+    bad8 = []
+    for p_, g in sorted(P.fns.items()):
+        if not (p_.startswith('ripd::session::run_openresponses_agent_loop') or p_.startswith('ripd::session::ToolCallCollector::')):
+            continue
+        if not any('FunctionCallItem' in (l_.get('ty') or '') for l_ in g.locals):
+            continue
+        n8 += 1
+        ctx.touch(g)
+        for s_ in g.sites():
+            if not re.search(REORDER, s_.callee or ''):
+                continue
+            if not (any('FunctionCallItem' in x for x in s_.ga) or any('FunctionCallItem' in (g.lty(r_) or '') for r_ in [g.root_local(a_, through_calls=(r'::deref_mut$', r'::deref$')) for a_ in s_.args[:1]] if r_ is not None)):
+                continue
+            if s_.name in ('sort_by_key', 'sort_by_cached_key', 'sort_unstable_by_key') and p_.endswith('::drain_function_calls'):
+                # the one sanctioned ordering: by the provider's output_index
+                o_ = g.origin(s_.args[1]) if len(s_.args) > 1 else ('?',)
+                cl_ = P.fns.get(o_[1].get('def')) if o_[0] == 'rv' and o_[1].get('ak') == 'closure' else None
+                if cl_ is not None and any(isinstance(pp, dict) and pp.get('n') == 'output_index' for b_ in cl_.blocks for st_ in b_['s'] for pl_ in [st_.get('rv', {}).get('pl'), op_place(st_.get('rv', {}).get('a', [{}])[0]) if st_.get('rv', {}).get('a') else None] if pl_ for pp in pl_.get('p', [])):
+                    continue
+            bad8.append((g, s_))
+    ctx.floor('C16.8', 'functions handling the collected calls', n8, 2)
+    ctx.ob('C16.8', bad8[0][0] if bad8 else f, 'calls-in-provider-order', not bad8,
+           'the collected calls are ordered by output_index once and then only iterated (%d function(s) scanned)' % n8 if not bad8 else
+           '%s is applied to the collected calls (line %s): a call is dropped, or the calls are run / answered in another order than the provider emitted them' % (bad8[0][1].name, bad8[0][1].line),
+           line=bad8[0][1].line if bad8 else f.line)
     c167(ctx)
 
 
